@@ -11,7 +11,7 @@ from io import BytesIO
 
 from checks import c05
 from vlib import chunktools, faults, specmodel
-from vlib.harness import REPO, VERIF, PropertyViolation
+from vlib.harness import REPO, VERIF, HarnessError, PropertyViolation
 
 PROPERTY_ID = "C18"
 LEVEL = "fault_enumeration"
@@ -30,7 +30,7 @@ ASSUMPTIONS = [
     "nested loads are counted by wrapping the read_sunvox_file names imported into rv.modules.metamodule / rv.modules.sampler (the wrapper calls the original)",
 ]
 REQUIRED_LABELS = {
-    "quick": ["read_fault_raised", "chunk_fault_raised", "fault_in_nested_load", "truncated", "semantic_failure", "path_access", "flag_initially_false", "path_bad_file", "diagnostic_fault_raised", "warnings_as_errors", "lenient_load_with_out_of_range_values", "read_fault_kind_ESTALE", "read_fault_kind_InjectedBaseFault", "read_fault_kind_MemoryError"],
+    "quick": ["read_fault_raised", "chunk_fault_raised", "fault_in_nested_load", "truncated", "semantic_failure", "path_access", "flag_initially_false", "path_bad_file", "diagnostic_fault_raised", "warnings_as_errors", "lenient_load_with_out_of_range_values", "read_fault_kind_ESTALE", "read_fault_kind_InjectedBaseFault", "read_fault_kind_MemoryError", "named_as_direntry", "named_as_bytes"],
     "thorough": ["read_fault_raised", "chunk_fault_raised", "fault_in_nested_load", "truncated", "semantic_failure", "path_access", "flag_initially_false", "diagnostic_fault_raised", "warnings_as_errors", "lenient_load_with_out_of_range_values"],
 }
 
@@ -179,6 +179,54 @@ class Env:
             shutil.rmtree(self.workdir, ignore_errors=True)
 
 
+def open_fds():
+    """(fd, target) of every descriptor this process has open."""
+    out = []
+    try:
+        names = os.listdir("/proc/self/fd")
+    except OSError:
+        return out
+    for n in names:
+        try:
+            out.append((int(n), os.readlink("/proc/self/fd/" + n)))
+        except OSError:
+            pass  # the descriptor used for listing
+    return out
+
+
+NAME_KINDS = ["bytes", "direntry", "pathlike", "purepath", "str_subclass"]
+
+
+def other_name(path, kind):
+    """The same file named in the other ways Python programs name files (the library may accept or reject them)."""
+    import pathlib
+
+    if kind == "bytes":
+        return os.fsencode(path)
+    if kind == "direntry":
+        with os.scandir(os.path.dirname(path)) as it:
+            for e in it:
+                if e.name == os.path.basename(path):
+                    return e
+        raise HarnessError("file vanished: " + path)
+    if kind == "pathlike":
+        class P:
+            def __init__(self, p):
+                self.p = p
+
+            def __fspath__(self):
+                return self.p
+
+        return P(path)
+    if kind == "purepath":
+        return pathlib.PurePosixPath(path)
+
+    class S(str):
+        pass
+
+    return S(path)
+
+
 def one_load(ctx, ident, data, path, access, flag0, fault):
     """Perform one load under one fault; check the post-conditions.  Returns (raised?, info)."""
     import rv.errors
@@ -193,6 +241,7 @@ def one_load(ctx, ident, data, path, access, flag0, fault):
     tracker = faults.TrackedOpen(fail_at=pos if (kind == "read" and access == "path") else None, exc_index=exc_index)
     stream = None
     info = {}
+    fds_before = open_fds()
     try:
         with tracker:
             with faults.counting_chunks(fail_at=pos if kind == "chunk" else None) as cstate, faults.failing_diagnostics(fail_at=pos if kind == "diag" else None, warnings_as_errors=(kind == "werror")) as dstate:
@@ -200,6 +249,8 @@ def one_load(ctx, ident, data, path, access, flag0, fault):
                     if access == "path":
                         # str and pathlib.Path spellings alternate
                         read_sunvox_file(__import__("pathlib").Path(path) if (pos or 0) % 2 else str(path))
+                    elif access.startswith("name:"):
+                        read_sunvox_file(other_name(path, access[5:]))
                     else:
                         src = data if kind != "truncate" else data[:pos]
                         stream = faults.FaultyFile(BytesIO(src), pos if kind == "read" else None, exc_index)
@@ -217,6 +268,9 @@ def one_load(ctx, ident, data, path, access, flag0, fault):
             info["nested_loads"] = cstate["nested_loads"]
             flag_after = rv.errors.RAISE_CONTROLLER_VALUE_ERRORS
             files_state = [(f.closed, f.reads, f.fired) for f in tracker.files]
+            # descriptors of the process at the moment the call has returned / raised (the exception, if any,
+            # is still held here): whatever the library opened itself, by whatever means, is closed again
+            fds_after = open_fds()
         # the caller has handled and dropped the exception (its frames, suspended generators and
         # their pending clean-ups are finalised): the setting must still be what it was
         raised_name = type(raised).__name__ if raised is not None else None
@@ -245,6 +299,14 @@ def one_load(ctx, ident, data, path, access, flag0, fault):
         key="C18.flag_after_exception_released",
         recipe=rec,
     )
+    leaked = sorted(set(fds_after) - set(fds_before))
+    ctx.check(
+        not leaked,
+        "C18.descriptor_left_open",
+        "%s: %d more file descriptor(s) are open when the call has %s than before it (%s; name given as %s)" % (ident, len(leaked), "raised " + str(raised) if raised else "returned", ", ".join(x[1] for x in leaked)[:200], access),
+        key="C18.file_closed",
+        recipe=rec,
+    )
     if access == "path":
         ctx.check(len(files_state) >= 1, "C18.path_opened", "%s: library did not open the path through Path.open" % ident, recipe=rec)
         ctx.check(
@@ -254,7 +316,7 @@ def one_load(ctx, ident, data, path, access, flag0, fault):
             key="C18.file_closed",
             recipe=rec,
         )
-    else:
+    elif access == "stream":
         ctx.check(len(files_state) == 0, "C18.stream_no_open", "%s: stream load opened a path" % ident, recipe=rec)
     # user-visible consequence: strict mode still rejects (when it was strict before)
     if flag0:
@@ -431,6 +493,16 @@ def run_item(ctx, env, item):
                 n_nt += 1
                 if inf["depth_at_fire"]:
                     ctx.label("fault_in_nested_load")
+    # the file named in other ways than str / pathlib.Path (bytes, os.DirEntry, os.PathLike objects, a
+    # pure path, a str subclass): accepted or refused, nothing stays open and the flag is what it was
+    for nk in NAME_KINDS:
+        for flag0 in (True, False):
+            for fault in (("clean", None), ("read", 1), ("chunk", 2)):
+                r, inf = one_load(ctx, ident, data, path, "name:" + nk, flag0, fault)
+                ctx.case()
+                ctx.label("named_as_" + nk)
+                if r is not None:
+                    n_nt += 1
     # truncation (stream only; a truncated file on disk is the same bytes)
     chunks = chunktools.parse(data)
     offs = []
